@@ -33,7 +33,7 @@ ASSUMPTIONS = [
 ]
 PROBES = ["invivo_notifications", "invivo_handlers_invoked", "invivo_multi_handler_notifications", "unprocessed_set_out", "lang_filtered", "any_lang_match", "blocked", "data_chained", "unprocessed_kept_data", "unknown_event",
           "flags_multi", "str_lang", "set_lang", "substring_lang", "register_list", "plugin_loaded", "prod_default_table",
-          "no_handler_matched", "listed_handlers", "debug_mode", "reentrant_notify", "registered_during_dispatch"]
+          "no_handler_matched", "listed_handlers", "debug_mode", "reentrant_notify", "registered_during_dispatch", "eventdata_reused"]
 # the same check again, smaller, in interpreters started with assertions stripped (python -O / PYTHONOPTIMIZE=1)
 ENV_VARIANTS = [{"name": "python-O", "env": {"PYTHONOPTIMIZE": "1"}, "runs": {'quick': 3000, 'thorough': 30000}}]
 TIERS = {
@@ -183,6 +183,8 @@ def generate(rng, k):
             returns[str(h)] = f
             sets_out[str(h)] = bool(rng.random() < (0.75 if f != 0 else 0.25))
         nop = {"op": "notify", "event": e, "lang": rng.choice(LANGS + ["other"]), "returns": returns, "sets_out": sets_out}
+        if rng.random() < 0.15:
+            nop["reuse_data"] = True      # the caller re-raises / forwards the SAME EventData object (fields updated) instead of a new one
         others = sorted({x for x in events if x != e})
         if regs[e] and others and rng.random() < k.get("p_reentrant", 0):
             other = rng.choice(others)
@@ -371,6 +373,7 @@ def execute(trace):
 
     model = {}     # real event kind -> list of (hid, langs)
     n_notify = 0
+    last_data = [None]
     if k.get("debug"):
         hit("debug_mode")
 
@@ -429,7 +432,13 @@ def execute(trace):
                 for spec_ in (reent["nested"], reent["late_reg"]):
                     if spec_ is not None and spec_["_ev"] == ev:
                         spec_["_ev"] = None          # only OTHER events: what a dispatch does to itself is not defined by the property
-                data = _EventData(lang, ev, f"in{n_notify}")
+                if op.get("reuse_data") and last_data[0] is not None:
+                    data = last_data[0]
+                    data.lang, data.event, data.in_data = lang, ev, f"in{n_notify}"
+                    hit("eventdata_reused")
+                else:
+                    data = _EventData(lang, ev, f"in{n_notify}")
+                last_data[0] = data
                 res = em.notify(data)
         except Exception as e:  # noqa
             violation = {"step": step, "cls": "exception", "detail": {"op": op, "error": f"{type(e).__name__}: {e}"}}
